@@ -74,6 +74,11 @@ class CmaStrategy(HoloPyObject):
                  parallel='auto'):
         self.npixels = npixels
         self.popsize = popsize
+        # kept under the constructor's names so that they are saved with
+        # the strategy
+        self.resample_pixels = resample_pixels
+        self.parent_fraction = parent_fraction
+        self.weight_function = weight_function
         if resample_pixels:
             self.new_pixels = self.npixels
         else:
